@@ -5,9 +5,24 @@ KB_TB = [
     "modelled, not verified: std::time::Instant (time is an explicit argument of every model operation; the harness uses pending timeouts of 0 s / 1 h and the hook verif_force_pending_ready), arrayvec, the Filter trait objects (arbitrary functions in the model), Enr equality (interned ids)",
 ]
 
+
+HND_FILES = ["Model/Handler.v", "Run/HandlerRun.v"]
+HND_TB = [
+    "modelled, not verified: cryptography is symbolic (Dolev-Yao terms for ECDH/HKDF keys, AES-GCM ciphertexts, ECDSA id-signatures; the harness maps real datagrams to terms with the crate's own primitives and tests that the real primitives behave like the terms on every generated case); tokio timers are deadlines fired on a 5 ms grid of a paused clock; the order in which timers with one and the same deadline fire is an oracle choice (insertion order or its reverse, the two behaviours of tokio-util's timer wheel); randomness is an oracle input observed on the wire; session expiry by age is not part of the handler model (Model/Lru.v); the UDP socket tasks are replaced by channels (real RecvHandler::handle_inbound and Packet::encode/decode are used)",
+]
+def _hnd(focus, quick=64, thorough=1500):
+    return {
+        "coq_files": HND_FILES,
+        "runner_vo": "Run/HandlerRun.v",
+        "harness": [{"component": "hnd", "args": ["--focus", focus, "--fixes", "all"], "quick": quick, "thorough": thorough}],
+        "trusted_base": HND_TB,
+        "assumptions": ["request ids chosen by the application are distinct per run", "oracle freshness where a theorem states it"],
+        "explanation": "theorems about Model/Handler.v + step-by-step correspondence of the real Handler (virtual wire, paused clock) with the model on generated event histories + direct monitors written from the property text",
+    }
+
 SPECS = {
     "C07": {
-        "coq_files": KB_FILES,
+        "coq_files": KB_FILES + ["Lib/ListY.v", "Proofs/KBucketInv.v", "Proofs/KBucketTable.v", "Proofs/KBucketPending.v"] + ["Proofs/KBucketExamples.v"],
         "runner_vo": "Run/KBucketRun.v",
         "harness": [
             {"component": "kb", "args": ["--focus", "c07"], "quick": 96, "thorough": 1600},
@@ -19,7 +34,7 @@ SPECS = {
         "explanation": "inductive invariant of Model/KBucket.v over all operation lists + correspondence + direct structural monitor",
     },
     "C16": {
-        "coq_files": KB_FILES,
+        "coq_files": KB_FILES + ["Lib/ListY.v", "Proofs/KBucketInv.v", "Proofs/KBucketTable.v", "Proofs/KBucketPending.v"] + ["Proofs/KBucketEntries.v", "Proofs/Subnet.v", "Proofs/SubnetExamples.v"],
         "runner_vo": "Run/KBucketRun.v",
         "harness": [
             {"component": "kb", "args": ["--focus", "c16"], "quick": 96, "thorough": 1600},
@@ -29,7 +44,7 @@ SPECS = {
         "explanation": "subnet-count invariant of Model/KBucket.v with the IP filters over all operation lists + correspondence + direct recount monitor",
     },
     "C08": {
-        "coq_files": KB_FILES + ["Proofs/ClosestOrder.v"],
+        "coq_files": KB_FILES + ["Proofs/ClosestOrder.v"] + ["Lib/ListY.v", "Proofs/KBucketInv.v", "Proofs/KBucketTable.v", "Proofs/KBucketPending.v"] + ["Proofs/ClosestTable.v"],
         "runner_vo": "Run/KBucketRun.v",
         "harness": [
             {"component": "kb", "args": ["--focus", "c08"], "quick": 96, "thorough": 1600},
@@ -41,4 +56,59 @@ SPECS = {
         ],
         "explanation": "theorems about Model/KBucket.v (bucket order closed form, permutation, order) + correspondence of closest_keys/closest_values/closest_values_predicate/nodes_by_distances with the model on generated tables + direct monitor (sorted full scan)",
     },
+    "C20": {
+        "coq_files": ["Model/Talk.v", "Proofs/Talk.v", "Run/TalkRun.v"],
+        "runner_vo": "Run/TalkRun.v",
+        "harness": [
+            {"component": "talk", "args": [], "quick": 1400, "thorough": 20000},
+        ],
+        "trusted_base": [
+            "Rust's ownership rules (respond consumes the request object, Drop::drop runs exactly once per value): the model's linear use of request objects rests on them",
+            "tokio's unbounded mpsc channel (send fails exactly when the receiver is gone; linearizable under concurrent senders) - modelled, observed by the correspondence run, not verified",
+            "between the service and the wire the handler turns each HandlerIn::Response into one TALKRESP packet (handler properties, not C20)",
+        ],
+        "assumptions": [
+            "shutdown is modelled as the handler's receiving end of the service-to-handler channel being dropped; 'delivered to the application' means the Event::TalkRequest was accepted by the bounded event channel",
+        ],
+        "explanation": "invariant over all interleavings of deliver/respond/drop/hold/shutdown in Model/Talk.v (at most one response, exactly one with the right id/address/payload while running, error value and no panic after shutdown) + correspondence on real TalkRequest objects created by the hook constructor and by the real Service::handle_rpc_request + direct exactly-once monitor incl. multi-threaded answers",
+    },
+    "C15": {
+        "coq_files": ["Model/Lru.v", "Proofs/Lru.v", "Run/LruRun.v"],
+        "runner_vo": "Run/LruRun.v",
+        "harness": [
+            {"component": "lru", "args": [], "quick": 64, "thorough": 640},
+        ],
+        "trusted_base": [
+            "modelled, not verified: std::time::Instant (time is an explicit argument of every model operation; the harness runs the real cache in real time with ttl 100 ms on a 40 ms grid, brackets every call with measured instants and reads the stored instants back through the hook LruTimeCache::verif_dump), hashlink::LinkedHashMap (modelled as a list in link order: insert/to_back move an entry to the back, pop_front removes the front)",
+            "the handler-level half of C15 (Handler::sessions is only read through get_mut/get, so an expired session takes the no-session path) belongs to the handler model; this check covers the cache LruTimeCache",
+        ],
+        "assumptions": [
+            "evicts_lru / refinement assume a clock that never goes back (Instant is monotonic); len_bounded and get_never_stale hold for every clock",
+            "the runner compares the implementation with the repaired model (get_mut treats an entry older than ttl as absent)",
+        ],
+        "explanation": "theorems about Model/Lru.v (len_bounded, get_never_stale + history form, evicts_lru, refinement to a ttl-restricted map with LRU eviction; get_never_stale_refuted for the pinned get_mut) + correspondence of LruTimeCache<u64,u64> with the model step by step (result and full dump incl. stored instants) + direct monitor (ledger of last uses: no value returned after an idle time > ttl, len <= capacity, LRU victim)",
+    },
+    "C05": {
+        "coq_files": ["Generated/Params.v", "Lib/Bytes.v", "Model/Packet.v", "Proofs/Packet.v", "Run/PacketRun.v"],
+        "runner_vo": "Run/PacketRun.v",
+        "harness": [
+            {"component": "pkt", "args": [], "quick": 240, "thorough": 4000},
+        ],
+        "trusted_base": [
+            "modelled, not verified: AES-128-CTR (aes/ctr crates) - an abstract keystream in the theorems, the real keystream bytes are computed by the harness and handed to the model; the enr crate's record codec (Enr::decode / alloy_rlp::encode) - opaque in the model, the real decoder's verdict on the record bytes of every generated handshake is handed to the model; NodeId ([u8; 32]), u128/u64/u16 big-endian conversions of std",
+            "the ProtocolIdentity argument of Packet::decode is fixed to ProtocolIdentity::default() (its two literals are regenerated into Generated/Params.v)",
+        ],
+        "assumptions": [
+            "round trip: enr_decode (enr_encode e) = Some e and enr_encode e <> [] for the record codec (premises of C05_decode_encode); fields within the Rust types' ranges (packet_wf); 63 <= |datagram| <= 1280",
+            "a datagram masked for another id: accepted only on an 8-byte keystream collision (abstract stream cipher); ids sharing their first 16 bytes share the masking key by the discv5.1 specification",
+            "not claimed (known looseness): Enr::decode in the handshake branch ignores bytes after the record inside the auth-data, so encode(decode(bs)) can differ from bs; the model reproduces it",
+        ],
+        "explanation": "theorems about Model/Packet.v (round trip incl. authenticated data for every keystream, layout, decode never panics, one lemma per rejection rule with the exact error, accepted => every rule passed, aad = received bytes, injectivity of datagram -> (aad, body), wrong id needs a keystream collision) + correspondence of Packet::encode / Packet::authenticated_data / Packet::decode with the model on generated packets and on datagrams malformed in the unmasked domain + direct monitor (round trip, layout, no panic, every strictness rule, other id rejected)",
+    },
+    "C01": _hnd("c01"),
+    "C02": _hnd("c02"),
+    "C03": _hnd("c03"),
+    "C04": _hnd("c04"),
+    "C13": _hnd("c13"),
+    "C19": _hnd("c19"),
 }
